@@ -29,7 +29,55 @@ let exts_of_tok s : (coq_N * Byte.byte list) list =
     | [id; p] -> (n_of_hex id, bytes_of_hex p)
     | _ -> failwith ("bad ext token " ^ e)) (split ';' s)
 
+(* ---- Tier T: the functions translated from messageset.go by srcmodel_mset
+   (Gen/MsetGo.v).  Same observation tokens as the corresponding model ops. ---- *)
+let zs_of_hex s = Stdlib.List.map (fun b -> z_of_int (int_of_byte b)) (bytes_of_hex s)
+let hex_of_zs (zs : BinNums.coq_Z list) : string =
+  let b = Buffer.create 64 in
+  Buffer.add_char b 'x';
+  Stdlib.List.iter (fun z -> let i = int_of_z z in
+                     if i < 0 || i > 255 then Buffer.add_string b "??" else Buffer.add_string b (Printf.sprintf "%02x" i)) zs;
+  Buffer.contents b
+let nilz : BinNums.coq_Z list = []
+(* error class of a translated error value, decided as the harness decides it:
+   by identity with protowire.ParseError(k) *)
+let go_err (e : GoInt.go_error) : string =
+  let rec f k = if k < -6 then "etypeid"
+    else if e = WireGo.go_ParseError (z_of_int k) then "e" ^ string_of_int k else f (k - 1) in
+  f (-1)
+
+let go_handle op args =
+  match op, args with
+  | "go_item", [id; p] ->
+      let id = z_of_hex id and p = zs_of_hex p in
+      let b = MsetGo.go_AppendFieldStart nilz id in
+      let b = WireGo.go_AppendTag b (z_of_int 3) (z_of_int 2) in
+      let b = WireGo.go_AppendBytes b p in
+      let b = MsetGo.go_AppendFieldEnd b in
+      let size = BinInt.Z.add (BinInt.Z.add (MsetGo.go_SizeField id) (WireGo.go_SizeTag (z_of_int 3)))
+                   (WireGo.go_SizeBytes (z_of_int (Stdlib.List.length p))) in
+      Some [hex_of_zs b; hex_of_z size]
+  | "go_citem", [wl; b] ->
+      let zb = zs_of_hex b in
+      Some (match MsetGo.go_ConsumeFieldValue zb (zb = []) (bool_of_tok wl) with
+       | GoInt.Val (((id, m), n), e) ->
+           if e = GoInt.GoNil then ["ok"; hex_of_z id; hex_of_zs m; string_of_int (int_of_z n)] else [go_err e]
+       | GoInt.Panic -> ["panic"]
+       | GoInt.Fuel -> ["fuel"])
+  | "go_sizeunk", [u] ->
+      Some (match MsetGo.go_SizeUnknown (zs_of_hex u) with
+       | GoInt.Val n -> [hex_of_z n]
+       | GoInt.Panic -> ["panic"]
+       | GoInt.Fuel -> ["fuel"])
+  | "go_appunk", [u] ->
+      Some (match MsetGo.go_AppendUnknown nilz (zs_of_hex u) with
+       | GoInt.Val (b, e) -> if e = GoInt.GoNil then ["ok"; hex_of_zs b] else ["err"]
+       | GoInt.Panic -> ["panic"]
+       | GoInt.Fuel -> ["fuel"])
+  | _ -> None
+
 let handle op args =
+  match go_handle op args with Some r -> r | None ->
   match op, args with
   | "item", [id; p] ->
       let id = n_of_hex id and p = bytes_of_hex p in
